@@ -86,11 +86,15 @@ pub enum Lit {
     Int(u32),
     Str(String),
     List(Vec<Lit>),
+    /// the syntax node matched by the stanza (`@_m` / `@_p`): a different value for every
+    /// match and for every tree
+    Cap,
 }
 
 impl Lit {
     fn render(&self) -> String {
         match self {
+            Lit::Cap => "@CAP".into(),
             Lit::Null => "#null".into(),
             Lit::Bool(true) => "#true".into(),
             Lit::Bool(false) => "#false".into(),
@@ -101,6 +105,7 @@ impl Lit {
     }
     fn cval(&self) -> CVal {
         match self {
+            Lit::Cap => CVal::Null, // resolved per match by `resolve_lit`
             Lit::Null => CVal::Null,
             Lit::Bool(b) => CVal::Bool(*b),
             Lit::Int(i) => CVal::Int(*i),
@@ -110,6 +115,7 @@ impl Lit {
     }
     fn value(&self) -> Value {
         match self {
+            Lit::Cap => Value::Null,
             Lit::Null => Value::Null,
             Lit::Bool(b) => Value::Boolean(*b),
             Lit::Int(i) => Value::Integer(*i),
@@ -119,6 +125,7 @@ impl Lit {
     }
     fn to_json(&self) -> J {
         match self {
+            Lit::Cap => json!({"cap": true}),
             Lit::Null => json!(null),
             Lit::Bool(b) => json!(b),
             Lit::Int(i) => json!(i),
@@ -133,7 +140,7 @@ impl Lit {
             J::Number(n) => Lit::Int(n.as_u64().unwrap_or(0) as u32),
             J::String(s) => Lit::Str(s.clone()),
             J::Array(a) => Lit::List(a.iter().map(Lit::from_json).collect()),
-            _ => Lit::Null,
+            J::Object(_) => Lit::Cap,
         }
     }
     fn from_cval(c: &CVal) -> Option<Lit> {
@@ -141,14 +148,21 @@ impl Lit {
             CVal::Null => Lit::Null,
             CVal::Bool(b) => Lit::Bool(*b),
             CVal::Int(i) => Lit::Int(*i),
+            // a generation-time placeholder for "the capture"
+            CVal::Str(s) if s.starts_with('\u{0}') => Lit::Cap,
             CVal::Str(s) => Lit::Str(s.clone()),
             CVal::List(l) => Lit::List(l.iter().map(Lit::from_cval).collect::<Option<Vec<_>>>()?),
+            // "the capture again": whether that is the same node is decided at run time
+            CVal::Syn { .. } => Lit::Cap,
             _ => return None,
         })
     }
 }
 
 fn gen_lit(r: &mut Rng) -> Lit {
+    if r.chance(1, 8) {
+        return Lit::Cap;
+    }
     match r.below(6) {
         0 => Lit::Int(r.below(5) as u32),
         1 => Lit::Str((*r.pick(&["a", "b", "", "x y", "é"])).to_string()),
@@ -162,7 +176,7 @@ fn gen_lit(r: &mut Rng) -> Lit {
 fn different(r: &mut Rng, l: &Lit) -> Lit {
     loop {
         let c = gen_lit(r);
-        if &c != l {
+        if &c != l && c != Lit::Cap {
             return c;
         }
     }
@@ -291,7 +305,7 @@ fn render_touch(per_pass: bool, old_nodes: u32, ops: &[Op], stamp: u32) -> Strin
         }
     }
     out.push_str("}\n");
-    out
+    out.replace("@CAP", if per_pass { "@_p" } else { "@_m" })
 }
 
 impl Program {
@@ -351,18 +365,36 @@ struct Touches {
 /// Strict mode runs the operations in statement order.  Lazy mode creates the nodes while the
 /// matches are processed, then evaluates every deferred `edge`, then every deferred `attr` —
 /// so an attribute may precede the `edge` statement that creates its edge.
-fn apply_touch(m: &mut Model, ops: &[Op], stamp: u32, matches: usize, lazy: bool, t: &mut Touches) -> Result<(), String> {
+fn apply_touch(m: &mut Model, ops: &[Op], stamp: u32, caps: &[CVal], lazy: bool, t: &mut Touches) -> Result<(), String> {
     if !lazy {
-        return apply_phase(m, ops, stamp, matches, 0, &mut Vec::new(), t);
+        return apply_phase(m, ops, stamp, caps, 0, &mut Vec::new(), t);
     }
     let mut locals: Vec<BTreeMap<usize, u32>> = Vec::new();
-    apply_phase(m, ops, stamp, matches, 1, &mut locals, t)?;
-    apply_phase(m, ops, stamp, matches, 2, &mut locals, t)?;
-    apply_phase(m, ops, stamp, matches, 3, &mut locals, t)
+    apply_phase(m, ops, stamp, caps, 1, &mut locals, t)?;
+    apply_phase(m, ops, stamp, caps, 2, &mut locals, t)?;
+    apply_phase(m, ops, stamp, caps, 3, &mut locals, t)
+}
+
+/// In generation-time scratch models the capture is a placeholder; it is assumed to match a
+/// stored syntax node (the real comparison happens when the history runs).
+fn placeholder(i: usize) -> CVal {
+    CVal::Str(format!("\u{0}cap{}", i))
+}
+fn same_value(old: &CVal, v: &CVal) -> bool {
+    old == v || (matches!(v, CVal::Str(s) if s.starts_with('\u{0}')) && matches!(old, CVal::Syn { .. }))
+}
+
+fn resolve_lit(l: &Lit, cap: &CVal) -> CVal {
+    match l {
+        Lit::Cap => cap.clone(),
+        Lit::List(v) => CVal::List(v.iter().map(|x| resolve_lit(x, cap)).collect()),
+        other => other.cval(),
+    }
 }
 
 /// phase 0: everything in order; 1: nodes only (records locals); 2: edges only; 3: attributes only
-fn apply_phase(m: &mut Model, ops: &[Op], stamp: u32, matches: usize, phase: u8, saved: &mut Vec<BTreeMap<usize, u32>>, t: &mut Touches) -> Result<(), String> {
+fn apply_phase(m: &mut Model, ops: &[Op], stamp: u32, caps: &[CVal], phase: u8, saved: &mut Vec<BTreeMap<usize, u32>>, t: &mut Touches) -> Result<(), String> {
+    let matches = caps.len();
     let old_count = m.nodes.len() as u32;
     if phase >= 2 && saved.len() != matches {
         return Err("internal: locals not recorded".into());
@@ -384,6 +416,7 @@ fn apply_phase(m: &mut Model, ops: &[Op], stamp: u32, matches: usize, phase: u8,
     // the range check and the "old" boundary refer to the image before the step
     let old_count = if phase >= 2 { m.nodes.len() as u32 - saved.iter().map(|l| l.len() as u32).sum::<u32>() } else { old_count };
     for mi in 0..matches {
+        let cap = &caps[mi];
         let mut locals: BTreeMap<usize, u32> = if phase >= 2 { saved[mi].clone() } else { BTreeMap::new() };
         let resolve = |x: &NodeX, locals: &BTreeMap<usize, u32>| -> u32 {
             match x {
@@ -423,7 +456,7 @@ fn apply_phase(m: &mut Model, ops: &[Op], stamp: u32, matches: usize, phase: u8,
                 Op::AttrNode(a, at) => {
                     let a = resolve(a, &locals);
                     for (k, v) in at {
-                        let v = v.cval();
+                        let v = resolve_lit(v, cap);
                         if a < old_count {
                             t.touched_old = true;
                         }
@@ -431,7 +464,7 @@ fn apply_phase(m: &mut Model, ops: &[Op], stamp: u32, matches: usize, phase: u8,
                             None => {
                                 m.nodes[a as usize].attrs.insert(k.clone(), v);
                             }
-                            Some(old) if *old == v => t.equal_reassigned += 1,
+                            Some(old) if same_value(old, &v) => t.equal_reassigned += 1,
                             Some(old) => {
                                 t.conflicting += 1;
                                 return Err(format!("attribute {} of node {} holds {:?}, assigned {:?}", k, a, old, v));
@@ -446,7 +479,7 @@ fn apply_phase(m: &mut Model, ops: &[Op], stamp: u32, matches: usize, phase: u8,
                         t.touched_old = true;
                     }
                     for v in vals {
-                        let v = v.cval();
+                        let v = resolve_lit(v, cap);
                         let target: &mut CAttrs = match b {
                             None => &mut m.nodes[a as usize].attrs,
                             Some(b) => match m.nodes[a as usize].edges.get_mut(&b) {
@@ -458,7 +491,7 @@ fn apply_phase(m: &mut Model, ops: &[Op], stamp: u32, matches: usize, phase: u8,
                             None => {
                                 target.insert(k.clone(), v);
                             }
-                            Some(old) if *old == v => t.equal_reassigned += 1,
+                            Some(old) if same_value(old, &v) => t.equal_reassigned += 1,
                             Some(old) => {
                                 t.conflicting += 1;
                                 t.conflict_in_one_statement += 1;
@@ -473,7 +506,7 @@ fn apply_phase(m: &mut Model, ops: &[Op], stamp: u32, matches: usize, phase: u8,
                         t.touched_old = true;
                     }
                     for (k, v) in at {
-                        let v = v.cval();
+                        let v = resolve_lit(v, cap);
                         let e = match m.nodes[a as usize].edges.get_mut(&b) {
                             Some(e) => e,
                             None => return Err(format!("edge {} -> {} does not exist", a, b)),
@@ -482,7 +515,7 @@ fn apply_phase(m: &mut Model, ops: &[Op], stamp: u32, matches: usize, phase: u8,
                             None => {
                                 e.insert(k.clone(), v);
                             }
-                            Some(old) if *old == v => t.equal_reassigned += 1,
+                            Some(old) if same_value(old, &v) => t.equal_reassigned += 1,
                             Some(old) => {
                                 t.conflicting += 1;
                                 return Err(format!("attribute {} of edge {}->{} holds {:?}, assigned {:?}", k, a, b, old, v));
@@ -663,7 +696,8 @@ fn gen_touch(r: &mut Rng, m: &Model, stamp: u32, conflict: bool) -> (bool, Vec<O
             let mut all = ops.clone();
             all.push(op.clone());
             let mut base = m.clone();
-            if apply_touch(&mut base, &all, stamp, if per_pass { 2 } else { 1 }, false, &mut t).is_ok() {
+            let caps: Vec<CVal> = (0..if per_pass { 2 } else { 1 }).map(placeholder).collect();
+            if apply_touch(&mut base, &all, stamp, &caps, false, &mut t).is_ok() {
                 ops.push(op);
                 s2 = base;
             }
@@ -840,7 +874,23 @@ fn invariants(before: &CGraph, after: &CGraph, step_no: u32, duplicate_attr_repo
     if changed > 1 || (changed == 1 && !duplicate_attr_reported) {
         return Some(("attribute-changed", first_change));
     }
+    let count = after.nodes.len() as u32;
     for (i, n) in after.nodes.iter().enumerate() {
+        for (s, ea) in &n.edges {
+            if *s >= count {
+                return Some(("dangling-edge", format!("edge {} -> {} points at a node that does not exist ({} nodes)", i, s, count)));
+            }
+            for (k, v) in ea {
+                if let Some(g) = dangling_ref(v, count) {
+                    return Some(("dangling-reference", format!("attribute {} of edge {} -> {} refers to graph node {} of {}", k, i, s, g, count)));
+                }
+            }
+        }
+        for (k, v) in &n.attrs {
+            if let Some(g) = dangling_ref(v, count) {
+                return Some(("dangling-reference", format!("attribute {} of node {} refers to graph node {} of {}", k, i, g, count)));
+            }
+        }
         for w in n.edges.windows(2) {
             if w[0].0 >= w[1].0 {
                 return Some(("edges-not-a-set", format!("edges of node {} are not strictly ascending by sink: {} then {}", i, w[0].0, w[1].0)));
@@ -855,10 +905,46 @@ fn invariants(before: &CGraph, after: &CGraph, step_no: u32, duplicate_attr_repo
     None
 }
 
+fn dangling_ref(v: &CVal, count: u32) -> Option<u32> {
+    match v {
+        CVal::GNode(g) if *g >= count => Some(*g),
+        CVal::List(l) => l.iter().find_map(|x| dangling_ref(x, count)),
+        CVal::Set(l) => l.iter().find_map(|x| dangling_ref(x, count)),
+        _ => None,
+    }
+}
+
 fn run_history_here(h: &History) -> (Stats, Option<Found>) {
     let mut st = Stats::default();
     let trees: Vec<tree_sitter::Tree> = h.sources.iter().map(|s| simrun::parse_python(s)).collect();
     let passes: Vec<usize> = h.sources.iter().map(|s| pass_count(s)).collect();
+    let roots: Vec<CVal> = trees.iter().map(|t| canon::syn_with_id(&t.root_node())).collect();
+    let pass_nodes: Vec<Vec<CVal>> = trees
+        .iter()
+        .map(|t| {
+            let mut v = Vec::new();
+            let mut cursor = t.walk();
+            let mut done = false;
+            while !done {
+                if cursor.node().kind() == "pass_statement" {
+                    v.push(canon::syn_with_id(&cursor.node()));
+                }
+                if cursor.goto_first_child() {
+                    continue;
+                }
+                loop {
+                    if cursor.goto_next_sibling() {
+                        break;
+                    }
+                    if !cursor.goto_parent() {
+                        done = true;
+                        break;
+                    }
+                }
+            }
+            v
+        })
+        .collect();
     let fns = simrun::functions();
     let mut graph: Graph = Graph::new();
     // pre-populate through the public API
@@ -879,7 +965,7 @@ fn run_history_here(h: &History) -> (Stats, Option<Found>) {
             }
         }
     }
-    let mut before = canon::cgraph(&graph);
+    let mut before = canon::cgraph_ids(&graph);
     let mut prev_failed = false;
     let mut th = 0u64;
     for (si, step) in h.steps.iter().enumerate() {
@@ -928,13 +1014,20 @@ fn run_history_here(h: &History) -> (Stats, Option<Found>) {
         simrun::log_clear();
         st.executions += 1;
         st.polls += flag.polls.get();
-        let after = canon::cgraph(&graph);
+        let after = canon::cgraph_ids(&graph);
         let outcome = match &res {
             Ok(Ok(())) => Outcome::Graph(after.clone()),
             Ok(Err(e)) => Outcome::Error(canon::cerr(e)),
             Err(p) => Outcome::Panic(entropy::panic_message(p)),
         };
-        th = rng::mix(th, rng::hash_str(&format!("{:?}", outcome)));
+        // the transcript must not contain node ids (heap addresses)
+        th = rng::mix(
+            th,
+            rng::hash_str(&match &outcome {
+                Outcome::Graph(_) => canon::cgraph(&graph).to_json().to_string(),
+                other => format!("{:?}", other),
+            }),
+        );
         if let Outcome::Panic(m) = &outcome {
             if si == 0 && before.nodes.is_empty() && step.cancel_at.is_none() {
                 st.discarded = true;
@@ -962,7 +1055,9 @@ fn run_history_here(h: &History) -> (Stats, Option<Found>) {
                 let mut model = Model::from_cgraph(&before);
                 let mut t = Touches::default();
                 let matches = if *per_pass { passes[step.tree] } else { 1 };
-                let predicted = apply_touch(&mut model, ops, *stamp, matches, step.lazy, &mut t);
+                let caps: Vec<CVal> = if *per_pass { pass_nodes[step.tree].clone() } else { vec![roots[step.tree].clone()] };
+                let _ = matches;
+                let predicted = apply_touch(&mut model, ops, *stamp, &caps, step.lazy, &mut t);
                 st.edge_recreated += t.edge_recreated;
                 st.equal_reassigned += t.equal_reassigned;
                 st.conflicting += t.conflicting;
@@ -1028,6 +1123,10 @@ pub fn make_history(ctx: &ShardCtx, i: u64) -> History {
         },
         pysrc::gen_source(&mut Rng::sub(seed, "srcB"), &pysrc::SrcCfg { max_stmts: 6, ..Default::default() }),
     ];
+    let mut sources = sources;
+    if sources[0].len() == sources[1].len() {
+        sources[0].push_str("pass\n");
+    }
     // model image after pre-population
     let mut m = Model::default();
     for p in &pre {
@@ -1062,7 +1161,8 @@ pub fn make_history(ctx: &ShardCtx, i: u64) -> History {
                 let matches = if per_pass { pass_count(&sources[tree]) } else { 1 };
                 let mut t = Touches::default();
                 let mut m2 = m.clone();
-                if apply_touch(&mut m2, &ops, stamp, matches, lazy, &mut t).is_ok() {
+                let caps: Vec<CVal> = (0..matches).map(placeholder).collect();
+                if apply_touch(&mut m2, &ops, stamp, &caps, lazy, &mut t).is_ok() {
                     m = m2;
                 }
             }
